@@ -83,8 +83,7 @@ static double chisq_pvalue(int n, double x2)
      *         upper incomplete gamma function.
      */
     } else if ((n & 1) == 0) {
-	double c = exp(-x);
-	double f = 1.0;
+	double f = exp(-x);	/* carry e^-x in the term: no overflow */
 	double s = 0.0;
 
 	n >>= 1;
@@ -94,7 +93,7 @@ static double chisq_pvalue(int n, double x2)
 	    }
 	    s += f;
 	}
-	result = c * s;
+	result = s;
 
     /*
      * For n odd,
@@ -105,8 +104,7 @@ static double chisq_pvalue(int n, double x2)
      */
     } else {
 	double c1 = erfc(sqrt(x));
-	double c2 = exp(-x) / sqrt(M_PI * x);
-	double f = 1.0;
+	double f = exp(-x) / sqrt(M_PI * x);	/* as above */
 	double s = 0.0;
 
 	n >>= 1;
@@ -114,7 +112,7 @@ static double chisq_pvalue(int n, double x2)
 	    f *= x / (i - 0.5);
 	    s += f;
 	}
-	result = c1 + c2 * s;
+	result = c1 + s;
     }
 
     return result;
